@@ -5,6 +5,7 @@
   of a well-formed simple graph before it reports anything to the follower.
 -/
 import Purr.Lemmas.ValidateL
+import Purr.Lemmas.WalkPanicL
 namespace Purr.C11
 open Purr Purr.Spec
 
@@ -101,11 +102,11 @@ theorem wellformed_not_rejected (g : Graph) (h : WellFormed g) : ∀ e, (walk g)
   exact compLoop_wellformed h _ _ _ e
 
 theorem walk_verdict_of_wellformed (g : Graph) (h : WellFormed g) :
-    (walk g).2 = .ok ∨ ∃ site, (walk g).2 = .panic site := by
+    (walk g).2 = .ok ∨ (walk g).2 = .panic "join_pool.rs:rnum" := by
   cases hv : (walk g).2 with
   | ok => exact Or.inl rfl
   | err e => exact absurd hv (wellformed_not_rejected g h e)
-  | panic p => exact Or.inr ⟨p, rfl⟩
+  | panic p => rw [walk_panic_only_rnum g p hv]; exact Or.inr rfl
 
 /-! non-vacuity: the three-atom witnesses of the former defect D10 are ill-formed and rejected -/
 example : validate [⟨.star, [⟨.elided, 1⟩]⟩, ⟨.star, [⟨.elided, 0⟩, ⟨.elided, 2⟩]⟩, ⟨.star, [⟨.elided, 1⟩, ⟨.elided, 0⟩]⟩]
